@@ -1,6 +1,6 @@
 import DK.Driver.Tree
 /-!
-# Driver ops for C03 / C06: constraint lists evaluated at several probe flows, in a canonical order
+# Driver ops for C03 / C06: constraint lists evaluated at several probe flows
 
 `cons.leaf` : `{"dev": <leaf description>, "probes": [flow, …], "jac": bool}`
 `cons.tree` : `{"tree": <tree description>, "n": horizon, "probes": [matrix, …], "jac": bool}`
@@ -11,36 +11,21 @@ import DK.Driver.Tree
 Answer of `cons.leaf` / `cons.tree`: one row per exported constraint,
 `[isEq, value at probe 1, …, value at probe P]`, or with `"jac": true`
 `[isEq, hasJac, values …, Jacobian at probe 1 (flat, n resp. R·n entries), …, at probe P]`,
-rows sorted lexicographically by their entries rounded to 1e-6 (stable), so that the comparison with
-the implementation is insensitive to the order of the constraint list (a harmless rewrite) but not to
-a dropped / duplicated constraint, a changed type, value or Jacobian.  The Python side
-(`vk/props/c03.py: canon_rows`) sorts with the same key.
+rows in the order the model's list has them.  The comparison is made insensitive to the order of the
+implementation's list (a harmless rewrite) on the Python side: `vk/gen_cons.py: align_rows` pairs every
+model row with the nearest unused implementation row of the same length (comparison within the
+tolerance, so rounding cannot split ties) — a dropped / duplicated constraint, a changed type, value
+or Jacobian still shows as a disagreement.
 -/
 namespace DK.Driver
 open Lean DK
 
 namespace Cons
 
-def bigKey : Int := 1000000000000000000
-
-/-- `⌊x·10⁶ + ½⌋` (undefined sorts last). -/
-def keyOf (x : R) : Int :=
-  match x.v with
-  | none => bigKey
-  | some q => (q * 1000000 + 1 / 2).floor
-
-def lexLe : List Int → List Int → Bool
-  | [], _ => true
-  | _ :: _, [] => false
-  | a :: as, b :: bs => if a < b then true else if b < a then false else lexLe as bs
-
-def sortRows (rows : List (List R)) : List (List R) :=
-  ((rows.map (fun r => (r.map keyOf, r))).mergeSort (fun a b => lexLe a.1 b.1)).map (·.2)
+def b2r (b : Bool) : R := if b then 1 else 0
 
 def rRows (rows : List (List R)) : Json :=
-  .arr ((sortRows rows).map (fun r => Json.arr (r.map rVal).toArray)).toArray
-
-def b2r (b : Bool) : R := if b then 1 else 0
+  .arr (rows.map (fun r => Json.arr (r.map rVal).toArray)).toArray
 
 end Cons
 open Cons
